@@ -7,6 +7,7 @@ import (
 	"fmt"
 	"math"
 	"os"
+	"os/exec"
 	"path/filepath"
 	"sort"
 	"strconv"
@@ -23,6 +24,11 @@ type HarnessSpec struct {
 	Opts     interp.JobOpts
 	MaxPaths int      // 0 = unlimited; reaching it is reported as a reduced bound (inconclusive)
 	Covers   []string // vCover labels that must be reached (vacuity guard)
+	// EngineReplay: counterexamples of this harness depend on injected faults / crash points /
+	// schedules that cannot be forced on the natively compiled code without rewriting comet's os
+	// calls; they are replayed by re-executing the real SSA concretely in the engine under the
+	// recorded decisions (fault / crash / schedule) instead of natively.
+	EngineReplay bool
 }
 
 type PropSpec struct {
@@ -282,16 +288,21 @@ func cmdCheck(args []string) int {
 			rf := replayFile{Harness: c.Harness, Label: c.Label, Key: k, Tier: c.Tier, Inputs: c.Inputs, Kinds: c.Kinds, Chooses: c.Chooses, Pretty: prettyInputs(c.Inputs, c.Kinds)}
 			path := filepath.Join(replayDir, fmt.Sprintf("%s-%d.json", id, nrep))
 			writeReplay(path, rf)
-			out, err := rp.run([]string{path})
-			if err != nil {
-				inconclusive = append(inconclusive, "replay: "+err.Error())
-				os.Remove(path)
-				continue
+			var oc string
+			if hspec := res.totals[c.Harness]; hspec != nil && hspec.Spec.EngineReplay {
+				oc = engineReplay(c.Harness, path)
+			} else {
+				out, err := rp.run([]string{path})
+				if err != nil {
+					inconclusive = append(inconclusive, "replay: "+err.Error())
+					os.Remove(path)
+					continue
+				}
+				oc = out[0].Outcome
 			}
-			oc := out[0].Outcome
 			if strings.HasPrefix(oc, "ASSERT-FAIL") || strings.HasPrefix(oc, "PANIC") {
 				fmt.Printf("VIOLATION property=%s replay=%s\n", id, path)
-				fmt.Printf("  harness=%s label=%q native=%q key=%s tier=%s\n", c.Harness, c.Label, oc, k, c.Tier)
+				fmt.Printf("  harness=%s label=%q replayed=%q key=%s tier=%s\n", c.Harness, c.Label, oc, k, c.Tier)
 				violations++
 				reproduced = true
 				break
@@ -458,4 +469,23 @@ func sourceHash() string {
 		}
 	}
 	return fmt.Sprintf("%x", h.Sum(nil))[:16]
+}
+
+// engineReplay re-executes the harness concretely inside the engine (real SSA,
+// environment models) under the recorded inputs and decisions.
+func engineReplay(harness, path string) string {
+	self, err := os.Executable()
+	if err != nil {
+		return "ERROR " + err.Error()
+	}
+	out, _ := exec.Command(self, "concrete", harness, path).CombinedOutput()
+	for _, line := range strings.Split(string(out), "\n") {
+		if strings.HasPrefix(line, "ASSERT-FAIL") || strings.HasPrefix(line, "PANIC") {
+			return line + " (engine-concrete replay)"
+		}
+	}
+	if strings.Contains(string(out), "FATAL") {
+		return "ERROR " + strings.TrimSpace(string(out))
+	}
+	return "OK (engine-concrete replay)"
 }
